@@ -53,11 +53,30 @@ def install():
     _installed[0] = True
 
 
+# hand-written well-formed reactions widening the corpus chemistry: intramolecular centres (reactant side of the
+# centre is disconnected although it lies in one molecule), spectator species, charges that are neutralised,
+# centre atoms joined by an untouched bond, several hydrogens leaving one atom
+EXTRA_RXNS = [
+    "[OH:1][CH2:2][CH2:3][CH2:4][C:5](=[O:6])[OH:7].[OH2:8]>>[O:1]1[CH2:2][CH2:3][CH2:4][C:5]1=[O:6].[OH2:7].[OH2:8]",
+    "[Br:1][CH2:2][CH2:3][CH2:4][CH2:5][O-:6].[CH3:7][OH:8]>>[Br-:1].[CH2:2]1[CH2:3][CH2:4][CH2:5][O:6]1.[CH3:7][OH:8]",
+    "[CH2:1]=[CH:2][CH2:3][CH2:4][CH2:5][CH:6]=[CH2:7].[OH2:8]>>[CH:2]1=[CH:6][CH2:5][CH2:4][CH2:3]1.[CH2:1]=[CH2:7].[OH2:8]",
+    "[CH3:1][O-:2].[CH3:3][I:4]>>[CH3:1][O:2][CH3:3].[I-:4]",
+    "[CH3:1][N:2]([CH3:3])[CH3:4].[CH3:5][I:6]>>[CH3:1][N+:2]([CH3:3])([CH3:4])[CH3:5].[I-:6]",
+    "[Cl:1][CH2:2][CH2:3][Cl:4].[NH3:5].[NH3:6]>>[NH2:5][CH2:2][CH2:3][NH2:6].[ClH:1].[ClH:4]",
+    "[CH3:1][C:2](=[O:3])[CH3:4].[NH2:5][NH2:6]>>[CH3:1][C:2](=[N:5][NH2:6])[CH3:4].[OH2:3]",
+    "[CH3:1][C:2](=[O:3])[CH3:4].[N:5]([H:7])([H:8])[CH3:6]>>[CH3:1][C:2](=[N:5][CH3:6])[CH3:4].[O:3]([H:7])[H:8]",
+    "[CH3:1][C:2]#[N:3].[OH2:4]>>[CH3:1][C:2](=[O:4])[NH2:3]",
+    "[CH2:1]=[CH:2][CH3:3].[H:4][H:5]>>[CH2:1]([H:4])[CH:2]([H:5])[CH3:3]",
+    "[CH3:1][C:2](=[O:3])[O-:4].[H+:5]>>[CH3:1][C:2](=[O:3])[O:4][H:5]",
+]
+
+
 @lru_cache(maxsize=None)
 def rxns():
-    """well-formed corpus reactions with classes decided from the input alone."""
+    """well-formed corpus reactions (plus EXTRA_RXNS, rid >= 10000) with classes decided from the input alone."""
     out = []
-    for rid, r in corpus.wellformed_reactions():
+    src = list(corpus.wellformed_reactions()) + [(10000 + i, r) for i, r in enumerate(EXTRA_RXNS) if corpus.wellformed(r)]
+    for rid, r in src:
         a, b = r.split(">>")
         mode = R.hmode(r)
         out.append({"rid": rid, "rsmi": r, "mode": mode, "cc": R.centre_complete(r),
@@ -138,6 +157,12 @@ def _run(substrate, tpl, invert, strategy="all", flags=None, automorphism=False,
         rx = SynReactor(substrate, tpl, invert=invert, strategy=strategy, automorphism=automorphism, **flags)
         maps = rx.mappings
         n_raw, n_pruned = STATS["last_in"], STATS["last_out"]
+        STATS["runs"] = STATS.get("runs", 0) + 1
+        if STATS["runs"] % 2 == 0:
+            # every second execution reads the lazily cached properties in the other order (its_list / its first,
+            # then smarts_list): the answer must not depend on which property the caller touches first
+            _ = rx.its_list
+            _ = rx.its
         smarts = list(rx.smarts_list)
         out = {"smarts": smarts, "std": {x for x in (std_fit(s) for s in smarts) if x},
                "n_raw": n_raw, "n_pruned": n_pruned, "n_maps": len(maps)}
@@ -276,7 +301,7 @@ def pruning_differential(ctx, budget_frac=1.0):
     for i, (rid, kind, d, s) in enumerate(cases):
         if not ctx.mine(i):
             continue
-        if ctx.quick and (i // ctx.nshards) % step != ctx.seed % step:
+        if ctx.quick and (i // ctx.nshards) % step != ctx.seed % step and rid < 10000:
             continue
         if ctx.out_of_time(budget_frac):
             ctx.count("pruning_truncated_by_budget")
